@@ -421,6 +421,10 @@ pub fn run_ops<F: PrimeField, C: CsExt<F>>(
                     Fix::AsIs => {}
                     Fix::Balance => l = l - hv,
                     Fix::BalancePlus(d) => l = l - (hv - st.model.sc(d)),
+                    Fix::BalanceAs(other) => {
+                        let ov = st.model.honest.eval(&st.model.row_of(other));
+                        l = l - ov
+                    }
                 }
                 st.model.constrain(lc, fix);
                 cs.constrain(l);
